@@ -1,0 +1,53 @@
+//go:build verif
+
+package header
+
+// This file contains no code. It carries the machine-checked contracts (structured //@ comments)
+// that /verif/govc binds to the functions of this package when built with -tags verif.
+
+//@ pure mand(t, u, nw) = !t.IsZero() && !u.IsZero() && u.ChainID() == t.ChainID() && u.Height() > t.Height() && u.Time() >= t.Time() && u.Time() <= nw + clockDrift
+//@ pure mandSentinel(t, u, nw, e) = ((t.IsZero() || u.IsZero()) && errors.Is(e, ErrZeroHeader)) || (!t.IsZero() && !u.IsZero() && ((u.ChainID() != t.ChainID() && errors.Is(e, ErrWrongChainID)) || (u.Height() <= t.Height() && errors.Is(e, ErrKnownHeader)) || (u.Time() < t.Time() && errors.Is(e, ErrUnorderedTime)) || (u.Time() > nw + clockDrift && errors.Is(e, ErrFromFuture))))
+
+//@ predicate passedVerify(t H, u H)
+
+//@ func verify(trstd, untrstd)
+//@   props C01
+//@   modifies $now
+//@   ensures [C01] accept: result == nil <==> mand(trstd, untrstd, now)
+//@   ensures [C01] plain: result != nil ==> asVerr(result) == nil
+//@   ensures [C01] sentinel: result != nil ==> mandSentinel(trstd, untrstd, now, result)
+//@   ensures [C01] clock: now >= old(now)
+
+//@ func Verify(trstd, untrstd)
+//@   props C01
+//@   ghost tv := result of invoke Verify #0
+//@   modifies $now, VerifyError.SoftFailure
+//@   ensures [C01] accept: result == nil <==> (mand(trstd, untrstd, now) && tv == nil)
+//@   ensures [C01] always-verr: result != nil ==> asVerr(result) != nil
+//@   ensures [C01] mandatory-hard: !mand(trstd, untrstd, now) ==> !asVerr(result).SoftFailure
+//@   ensures [C01] mandatory-sentinel: !mand(trstd, untrstd, now) ==> mandSentinel(trstd, untrstd, now, result)
+//@   ensures [C01] soft: mand(trstd, untrstd, now) && tv != nil ==> (asVerr(result).SoftFailure <==> (untrstd.Height() != trstd.Height() + 1 || (asVerr(tv) != nil && old(asVerr(tv).SoftFailure))))
+//@   ensures [C01] reason: mand(trstd, untrstd, now) && tv != nil ==> ite(asVerr(tv) != nil, asVerr(result) == asVerr(tv), asVerr(result).Reason == tv)
+//@   ensures [C01] clock: now >= old(now)
+//@   defines result == nil ==> passedVerify(trstd, untrstd)
+
+//@ func VerifyRange(trstd, untrstdRange)
+//@   props C02
+//@   modifies $now, VerifyError.SoftFailure
+//@   ensures [C02] empty: len(untrstdRange) == 0 ==> result1 != nil && errors.Is(result1, ErrEmptyRange) && len(result0) == 0
+//@   ensures [C02] prefix: len(result0) <= len(untrstdRange) && forall k int :: 0 <= k && k < len(result0) ==> result0[k] == old(untrstdRange[k])
+//@   ensures [C02] verified: forall k int :: 0 <= k && k < len(result0) ==> passedVerify(ite(k == 0, trstd, old(untrstdRange[k-1])), old(untrstdRange[k]))
+//@   ensures [C02] adjacent: forall k int :: 1 <= k && k < len(result0) ==> old(untrstdRange[k]).Height() == old(untrstdRange[k-1]).Height() + 1
+//@   ensures [C02] nil-iff-whole: result1 == nil <==> (len(result0) == len(untrstdRange) && len(untrstdRange) > 0)
+//@   ensures [C02] error-is-verr: result1 != nil ==> asVerr(result1) != nil
+//@   ensures [C02] input-unchanged: forall k int :: 0 <= k && k < len(untrstdRange) ==> untrstdRange[k] == old(untrstdRange[k])
+//@ loop 0:
+//@   invariant bounds: -1 <= rangeindex && rangeindex + 1 <= len(untrstdRange) && len(untrstdRange) > 0
+//@   invariant built: len(verified) == rangeindex + 1 && cap(verified) == len(untrstdRange) && fresh(arr(verified)) && off(verified) == 0
+//@   invariant trusted: trstd == ite(rangeindex == -1, old(trstd), old(untrstdRange[rangeindex]))
+//@   invariant frame: unchanged("elems(H)") && unchanged("VerifyError.Reason")
+//@   invariant input: forall k int :: 0 <= k && k < len(untrstdRange) ==> untrstdRange[k] == old(untrstdRange[k])
+//@   invariant copied: forall k int :: 0 <= k && k <= rangeindex ==> verified[k] == old(untrstdRange[k])
+//@   invariant passed: forall k int :: 0 <= k && k <= rangeindex ==> passedVerify(ite(k == 0, old(trstd), old(untrstdRange[k-1])), old(untrstdRange[k]))
+//@   invariant adjacent: forall k int :: 1 <= k && k <= rangeindex ==> old(untrstdRange[k]).Height() == old(untrstdRange[k-1]).Height() + 1
+//@   decreases len(untrstdRange) - rangeindex
